@@ -2,6 +2,10 @@
 import itertools, random
 import asmgen, asmcommon
 
+# parts of an assembly result the property does not speak about: a difference in these alone breaks the
+# correspondence but is not an input on which the property fails (reported with no-failing-input-found)
+AUX = ()
+
 ASSUMPTIONS = [
     "StaticSource::reclaim (manual lifetime) is exercised under the normal allocator only; a use-after-free that does not change behaviour is invisible here",
     "the only process state the model carries between assemblies is the symbol table; the implementation is run for real, so any other leaked state shows as a mismatch",
@@ -63,7 +67,7 @@ def gen_cases(tier, seed):
 def correspondence(ctx, violations, known_hits):
     cases, tags, pool = gen_cases(ctx.tier, ctx.seed)
     profiles = ("debug",) if ctx.tier == "quick" else ("debug", "release")
-    r = asmcommon.run_asm_cases(ctx, cases, tags, violations, profiles,
+    r = asmcommon.run_asm_cases(ctx, cases, tags, violations, profiles, aux=AUX,
                                 prop_note="model: after a reset the result equals a fresh assembly (C19_pure); a mismatch in a later source of a sequence is state leaking across assemblies")
     # direct check on the implementation's own answers: B after (A, reset) == B alone
     ri, rm, _ = ctx.run_both(cases, profile="debug", tag="c19d")
